@@ -15,29 +15,42 @@ DESIGN_REF = "§5 C12"
 TECHNIQUE = ("Coq proof over an abstract content-defined splitter (any boundary function of the current run) + in-Coq correspondence: "
              "the real splitter's decisions, asked from the splitter itself, re-chunked by the model reproduce the real boundaries; "
              "all construction routes compared on root hash and boundaries")
-LEVEL_TEXT = ("Proof (F/P): for every boundary function that sees only the items since the last boundary (the shape of keySplitter / "
-              "rollingHashSplitter after Reset), every item list and every edit script, re-chunking with resynchronisation at old boundaries "
-              "(the model of chunker.advanceTo / processPrefix / finalizeCursor / Done) yields exactly the greedy chunking of the new item list "
-              "(chunk_resync, mutate_canonical per level, level_history_independent), under the hypothesis that nodeBuilder.hasCapacity never "
-              "forces a boundary; without that hypothesis the statement is refuted in the model (mutate_canonical_refuted) and on the real code "
-              "(known finding). Partial: the composition of the per-level theorem over all levels of the tree is stated but not machine-proved; "
-              "cross-level agreement rests on the correspondence (root hash and every level's boundaries compared between routes).")
+LEVEL_TEXT = ("Proof (F/M): for every boundary function that sees only the items since the last boundary (the shape of keySplitter / "
+              "rollingHashSplitter after Reset), every summary (address) function, every sorted item list and every sorted edit list, the "
+              "incremental path over ALL levels (model of ApplyMutations: seek, chunker.advanceTo / processPrefix / skip / append / "
+              "finalizeCursor / Done with resynchronisation at old boundaries, the replaced chunk entries becoming the edits of the next level) "
+              "yields exactly the tree built from scratch: mutate_canonical; whole histories: history_canonical, history_independent (any two "
+              "histories of sorted edit batches from the empty tree that end in the same content give the same tree - all chunks of all levels, "
+              "same root); the fuel of build always suffices (build_is_tree). Hypothesis, visible in every statement: nodeBuilder.hasCapacity "
+              "never forces a boundary (no_overflow); without it the statement is refuted in the model (mutate_canonical_refuted) and on the real "
+              "code (known finding). Second known finding from the correspondence: commit closures are history-dependent on the real code "
+              "(the splitter sees a 1-byte value on Add and a 0-byte value when old items are re-fed).")
 LEVEL_NOTE = ("Trusted: Coq kernel, Go harness + Python glue. Modelled, not verified: flatbuffer serialisation and hash.Of (same items => same bytes "
-              "=> same address is observed through the root-hash comparison), the cursor seek (which old chunk an edit lands in only decides what "
-              "is re-fed, the theorem holds for every attribution), JSON documents (json_chunker.go) are not covered.")
-THEOREMS = ["chunk_resync", "chunk_resync_tail", "chunk_level_concat", "chunk_level_canon", "mutate_level (mutate_canonical, one level)",
-            "level_history_independent", "mutate_canonical_refuted (with overflow boundaries)"]
+              "=> same address is observed through the root-hash comparison); the cursor seek (which old chunk an edit lands in only decides what "
+              "is re-fed: apply_levels_spec holds for every attribution); the model assumes the splitter is a function of the items it is "
+              "given - exactly what fails for commit closures, where the item given on Add differs from the item read back; JSON documents "
+              "(json_chunker.go leaf splitter) and blobs are covered by the correspondence only (routes compared; blob shape also modelled).")
+THEOREMS = ["chunk_resync", "chunk_resync_tail", "chunk_level_concat", "chunk_level_canon", "mutate_level", "level_history_independent",
+            "rechunk_script (parent-script invariant)", "apply_levels_spec (all levels, any edit script)", "cops_new (per-chunk attribution = sorted "
+            "dictionary update)", "mutate_canonical", "history_independent", "history_canonical", "history_independent_fold", "build_is_tree",
+            "merge_inc (edited list stays sorted)", "mutate_canonical_refuted (with overflow boundaries)"]
 REFUTED = ["mutate_canonical_refuted"]
 RULE = ("one case = one final content and 2-9 construction routes (bulk, random-order batched inserts, ascending appends, inserts then deletes, "
         "edits from a different tree, shrink from a much larger tree, edits exactly at / next to leaf chunk edges, three-way merge), for row maps, "
-        "address maps and blobs; non-trivial = at least two routes and at least two chunks, or a blob with an internal level")
+        "address maps, commit closures, blobs and JSON documents (serialised in one go vs reached by Set / Insert / Remove); non-trivial = at "
+        "least two routes and at least two chunks, or a blob / JSON document with an internal level")
 ASSUMPTIONS = ["no item is large enough to make nodeBuilder.hasCapacity fail (key+value < 49152 bytes) — except in the overflow witness cases, "
                "which are expected to fail (known finding chunker.append:overflow-boundary-not-resynced)"]
 REQUIRED_TAGS = ["height2", "height3", "route:incr", "route:insdel", "route:other", "route:shrink", "route:bnd", "route:bnddel", "route:merge",
-                 "route:asc1", "size-forced-boundary", "addr", "blob-internal", "blob-exact-multiple", "empty", "single-chunk", "overflow-witness"]
+                 "route:asc1", "size-forced-boundary", "addr", "blob-internal", "blob-exact-multiple", "empty", "single-chunk", "overflow-witness",
+                 "json", "json-levels3", "closure", "closure-height2"]
 HARNESS_TIMEOUT = 900
 
 KNOWN_KEY = "chunker.append:overflow-boundary-not-resynced"
+KNOWN_KEY_CLOSURE = "commit_closure:leaf-value-size-differs-on-reread"
+CLOSURE_WITNESS = [
+    {"kind": "closure", "seed": 1, "n": 1500, "kspace": 200, "routes": ["bulk", "incr", "asc1"]},
+]
 OVERFLOW_WITNESS = [
     {"kind": "map", "seed": 5, "n": 100, "kspace": 3000, "vmin": 50, "vmax": 300, "routes": ["bulk", "delbig"], "del": [65400]},
     {"kind": "map", "seed": 3, "n": 200, "kspace": 3000, "vmin": 50, "vmax": 300, "routes": ["bulk", "delbig"], "del": [65000] * 6},
@@ -86,6 +99,15 @@ def gen_cases(rng, tier):
         n = rng.choice([0, 1, 30, 200, 900, 2500])
         cases.append({"kind": "addr", "seed": rng.randrange(1 << 30), "n": n, "kspace": 10 * n + 10, "vmax": rng.choice([1, 8, 40]),
                       "routes": ["bulk", "incr", "insdel"]})
+    cases += [dict(c) for c in CLOSURE_WITNESS]
+    for _ in range(5 if quick else 80):
+        n = rng.choice([0, 1, 40, 600, 2000, 4000])
+        cases.append({"kind": "closure", "seed": rng.randrange(1 << 30), "n": n, "kspace": rng.choice([3, 200, 100000]),
+                      "routes": ["bulk", "incr", "asc1"]})
+    for _ in range(10 if quick else 150):
+        n = rng.choice([0, 1, 5, 60, 600, 1500, 3000])
+        cases.append({"kind": "json", "seed": rng.randrange(1 << 30), "n": n, "vmin": rng.choice([2, 20]), "vmax": rng.choice([30, 200]),
+                      "routes": ["bulk", "set", "insert", "remove"]})
     for _ in range(40 if quick else 600):
         chunk = rng.choice([40, 60, 100, 200, 4000])
         fan = chunk // 20
@@ -97,13 +119,17 @@ def gen_cases(rng, tier):
 
 def coq_case(case, out):
     o = out.get("obs")
-    kind = 1 if case["kind"] == "blob" else 0
+    kind = 1 if case["kind"] in ("blob", "json") else 0
     if o is None or out.get("err"):
         # harness error / panic: an observation no model agrees with and no oracle accepts
         return "({| i_kind := %d; i_n := 0; i_dec := []; i_chunk := 0 |}, {| o_shape := [[999]]; o_routes := [] |})" % kind
     dec = cq_list(cq_bytes(d) for d in o["dec"])
     routes = cq_list("(%s, %s)" % (cq_bytes(r["root"]), cq_list(cq_bytes(l) for l in r["levels"])) for r in o["routes"])
     shape = cq_list(cq_bytes(l) for l in o["routes"][0]["levels"])
+    if case["kind"] == "json":
+        # the leaf splitter of JSON documents (json_chunker.go crossesBoundary) is not modelled: no shape is
+        # predicted (blob model of 0 bytes = no levels), the routes are compared by the oracle only
+        shape = "[]"
     return "({| i_kind := %d; i_n := %d; i_dec := %s; i_chunk := %d |}, {| o_shape := %s; o_routes := %s |})" % (
         kind, o["n"][0] if o["n"] else 0, dec, case.get("chunk", 0), shape, routes)
 
@@ -114,6 +140,16 @@ def classify(case, out):
         return ["error"]
     t = [case["kind"]]
     lv = o["routes"][0]["levels"]
+    if case["kind"] == "json":
+        t.append("json-levels%d" % len(lv))
+        if any(r["root"] != o["routes"][0]["root"] for r in o["routes"]):
+            t.append("routes-disagree")
+        return t
+    if case["kind"] == "closure":
+        t.append("closure-height%d" % len(lv))
+        if any(r["root"] != o["routes"][0]["root"] for r in o["routes"]):
+            t.append("closure-routes-disagree")
+        return t
     if case["kind"] == "blob":
         if len(lv) >= 2:
             t.append("blob-internal")
@@ -146,12 +182,15 @@ def nontrivial(case, out):
     if o is None:
         return False
     lv = o["routes"][0]["levels"]
-    if case["kind"] == "blob":
+    if case["kind"] in ("blob", "json"):
         return len(lv) >= 2
     return len(o["routes"]) >= 2 and len(lv) >= 1 and len(lv[0]) >= 2
 
 
 def match_known(finding, case, out):
+    if finding.get("key") == KNOWN_KEY_CLOSURE:
+        # commit closures only; nothing else about the case is constrained (any route may differ)
+        return case.get("kind") == "closure" and bool(out.get("obs"))
     if finding.get("key") != KNOWN_KEY:
         return False
     o = out.get("obs")
@@ -163,7 +202,7 @@ def match_known(finding, case, out):
 
 
 def shrink_candidates(case):
-    if case["kind"] == "blob":
+    if case["kind"] in ("blob", "json"):
         return
     if len(case["routes"]) > 2:
         for i in range(1, len(case["routes"])):
